@@ -58,7 +58,7 @@ def deviations(n, alts, bound):
 ENV = [(d, l) for d in DUTIES for l in LOADS]      # index 0 = (1, 0.3): the default answer
 
 
-def check_case(acc, chain_l, locking, env_seq, split=None, units=None, init=None, dt2=1.0):
+def check_case(acc, chain_l, locking, env_seq, split=None, units=None, init=None, dt2=1.0, frac=None):
     """env_seq: list of indices into ENV, one per instant."""
     chain_l = [tuple(x) for x in chain_l]
     spec = menu.assign(chain_l, motor=menu.MOTOR_CUR, locking=locking,
@@ -83,12 +83,15 @@ def check_case(acc, chain_l, locking, env_seq, split=None, units=None, init=None
     spec['load'] = ['script', [ENV[i][1] * stall for i in env_seq]]
     n = len(env_seq)
     case = {'kind': 'case', 'chain': chain_l, 'locking': locking, 'env': list(env_seq), 'split': split,
-            'units': units, 'dt2': dt2}
+            'units': units, 'dt2': dt2, 'frac': frac}
     if split:
         # the continuation may use another (physical) time step
         dtb = [dt[0] * dt2, dt[1]]
         ops = [('run', dt, [dt[0] * (split - 1), dt[1]], duty, None),
                ('run', dtb, [dtb[0] * (n - split), dtb[1]], duty, None)]
+    elif frac is not None:
+        # the requested duration is not a multiple of the step: round(T/dt) steps are taken, each of them a full dt
+        ops = [('run', dt, [dt[0] * (n - 2 + frac), dt[1]], duty, None)]
     else:
         ops = [('run', dt, [dt[0] * (n - 1), dt[1]], duty, None)]
     m, info = sim.run_schedule(spec, ops)
@@ -166,6 +169,8 @@ def run_shard(shard, tier):
                 check_case(acc, chain_l, locking, mixed, units={'theta': u})
             for u in si.UNITS['AngularSpeed']:
                 check_case(acc, chain_l, locking, mixed, units={'w': u})
+            for fr in (0.6, 0.4, 0.5000001):
+                check_case(acc, chain_l, locking, mixed, frac=fr)
             for sc in (1e-9, 1e6):
                 check_case(acc, chain_l, locking, mixed, units={'scale': sc})
                 check_case(acc, chain_l, locking, mixed, units={'scale': sc}, split=4)
@@ -178,6 +183,6 @@ def run_shard(shard, tier):
 def replay(case):
     acc = Acc()
     if case.get('kind') == 'case':
-        check_case(acc, case['chain'], case['locking'], tuple(case['env']), case.get('split'), case.get('units'), dt2=case.get('dt2', 1.0))
+        check_case(acc, case['chain'], case['locking'], tuple(case['env']), case.get('split'), case.get('units'), dt2=case.get('dt2', 1.0), frac=case.get('frac'))
         return acc.violations
     return run_shard(case['shard'], 'quick').violations
